@@ -17,7 +17,7 @@ def parseMask (t : String) : Option Faults :=
   | _ => none
 
 def parseFragArg (t : String) : Option (Option (Option Nat)) :=
-  if t == "X" then some none
+  if t == "X" || (t.length == 2 && t.startsWith "X") then some none  -- `X<n>`: other strings that are no fragment
   else if t == "~" then some (some none)
   else t.toNat?.map (fun n => some (some n))
 
